@@ -379,6 +379,11 @@ func checkFixture(c *Ctx, r *Report, kinds []string) {
 	for range scanAtomicMix(fx.ModFuncs) {
 		found["atomic-mix"] = true
 	}
+	for _, h := range scanPrefixTests(fx, fx.ModFuncs) {
+		if !h.OK {
+			found["bare-prefix"] = true
+		}
+	}
 	fr := newReport("fixture")
 	checkMapRanges(fx, fr, "T2", func(*ssa.Function) bool { return true })
 	for _, o := range fr.Obls {
